@@ -36,7 +36,7 @@ func (c12) Describe() CheckInfo {
 		},
 		RealCode:       []string{"gopatch main()/mainCmd.Run, preview/printComments, patch.Parse/File.Apply, pkg/diff, x/tools/imports, internal/*"},
 		Stubs:          []string{"package os (simulated filesystem, streams, exit)", "path/filepath walk", "io/ioutil"},
-		RequiredProbes: []string{"agree-inplace-vs-print", "agree-diff-applied", "agree-api", "agree-verbose", "agree-refused-file", "description-on-stderr", "multi-file-print", "dry-fault-fired", "dry-kill", "dry-stdout-fail", "noncanonical-matched-file", "large-file", "agree-respelled-duplicate-arg", "agree-api-result-held", "agree-hard-linked-targets", "agree-name-near-name-max", "agree-diff-applied-crlf", "agree-diff-applied-no-final-newline", "agree-diff-shape-table", "agree-described-change-fails-to-replace", "agree-write-protected-target", "agree-good-and-failing-change-in-one-patch", "agree-target-in-sibling-directory"},
+		RequiredProbes: []string{"agree-inplace-vs-print", "agree-diff-applied", "agree-api", "agree-verbose", "agree-refused-file", "description-on-stderr", "multi-file-print", "dry-fault-fired", "dry-kill", "dry-stdout-fail", "noncanonical-matched-file", "large-file", "agree-respelled-duplicate-arg", "agree-api-result-held", "agree-hard-linked-targets", "agree-name-near-name-max", "agree-diff-applied-crlf", "agree-diff-applied-no-final-newline", "agree-diff-shape-table", "agree-described-change-fails-to-replace", "agree-write-protected-target", "agree-good-and-failing-change-in-one-patch", "agree-target-in-sibling-directory", "agree-change-inside-elided-region-of-another"},
 	}
 }
 
@@ -104,6 +104,19 @@ func (c12) Gen(env *Env, seed uint64, tier string, i int) *Case {
 		return c
 	}
 	pp := GenPatchPlan(r, 2, Templates)
+	nested := sub == "agree" && r.Chance(1, 9)
+	if nested {
+		// ONE patch file, two changes: the first elides arguments with "...", the
+		// second rewrites a call that sits (over several lines, with a comment)
+		// inside what the first one elided. The library runs both as well.
+		outer := TemplateByName(r.Pick([]string{"dots-multiline", "dots-args"}))
+		inner := TemplateByName(r.Pick([]string{"call-rename", "swap-args"}))
+		pp = PatchPlan{Files: [][]Change{{{T: outer, K: 1, Marker: "VFMARK-1-" + outer.Name}, {T: inner, K: 2, Marker: "VFMARK-2-" + inner.Name}}}}
+		if r.Chance(1, 2) {
+			pp.Files[0][0], pp.Files[0][1] = pp.Files[0][1], pp.Files[0][0]
+		}
+		c.Extra["nested_changes"] = "1"
+	}
 	pp.Install(c, r)
 	all := pp.All()
 	n := r.Range(1, 5)
@@ -164,7 +177,10 @@ func (c12) Gen(env *Env, seed uint64, tier string, i int) *Case {
 		AddHardlinkTarget(c, r)
 	}
 	c.Flags = Flags{SkipImport: r.Chance(1, 3), SkipGen: r.Chance(1, 4)}
-	if sub == "agree" && r.Chance(1, 5) {
+	if nested {
+		c.Flags = Flags{}
+	}
+	if sub == "agree" && !nested && r.Chance(1, 5) {
 		// a file whose rewrite is refused: every mode must refuse it alike
 		m := Misfits[r.Intn(len(Misfits))]
 		for i := range c.Patches {
@@ -177,7 +193,7 @@ func (c12) Gen(env *Env, seed uint64, tier string, i int) *Case {
 		c.AddPatch("misfit.patch", c.Patches[0].Via, []byte(m.Patch(47)), nil, nil)
 		c.AddFile(r.Pick([]string{"a_mis.go", "mm_mis.go", "zz_mis.go"}), GenValidGoFile(r, GoFileOpts{Funcs: 1, Stmts: []string{m.Stmt(47)}}), "misfit", nil, m.Name)
 	}
-	if sub == "agree" && r.Chance(1, 6) {
+	if sub == "agree" && !nested && r.Chance(1, 6) {
 		// a DESCRIBED change that matches a file but whose replacement cannot be
 		// built for it: the change did not apply, so its description is not due
 		for i := range c.Patches {
@@ -197,7 +213,7 @@ func (c12) Gen(env *Env, seed uint64, tier string, i int) *Case {
 			plainSoFar = false
 		}
 	}
-	if sub == "agree" && plainSoFar && r.Chance(1, 7) {
+	if sub == "agree" && !nested && plainSoFar && r.Chance(1, 7) {
 		// ONE patch file whose changes both match one file: an ordinary rename and a
 		// change whose replacement cannot be built, in either order. Whatever the
 		// command does with that file, the library must say the same.
@@ -379,6 +395,9 @@ func c12Agree(env *Env, c *Case) (vs []Violation) {
 	}
 	if c.Extra["sibling_dir_target"] == "1" {
 		env.Probe("agree-target-in-sibling-directory")
+	}
+	if c.Extra["nested_changes"] == "1" {
+		env.Probe("agree-change-inside-elided-region-of-another")
 	}
 	tag := "skipimp=" + fmt.Sprint(c.Flags.SkipImport)
 
